@@ -299,21 +299,12 @@ def clause_e(ctx, fx, config="default"):
     optionally passed through the per-character ASCII escaper (checked: copies ASCII unchanged, stateless)"""
     import imodel
     import transducer
-    D = fx.fn(imodel.DISC_NEW)
-    if D is None:
-        ctx.missing("C01.e", imodel.DISC_NEW, "not found")
+    sites = imodel.text_sites(fx)
+    if not sites:
+        ctx.missing("C01.e", "disclosure text", "no function formats a disclosure text `[\"salt\", ...]`")
         return
-    dv = vals(D)
-    texts = []
-    for b, t in D.calls():
-        if t.get("resolved") == "std::fmt::format":
-            n = dv.call_node(b)
-            pcs = common.fmt_pieces(n)
-            if pcs and pcs[0][0] == "lit" and pcs[0][1].startswith("["):
-                texts.append(n)
-    if not texts:
-        ctx.missing("C01.e", "disclosure text", "SDJWTDisclosure::new does not base64url-encode a formatted text")
-        return
+    D = sites[0][0]
+    texts = [n for (tf, b, n, pcs) in sites]
     shapes = {3: ['["', None, '", ', None, ', ', None, ']'], 2: ['["', None, '", ', None, ']']}
     seen = set()
     for tx in texts:
@@ -351,7 +342,7 @@ def clause_e(ctx, fx, config="default"):
                 kk = key_arg
                 while kk.kind in ("variant", "field") and kk.kids:
                     kk = peel(kk.kids[0])
-                okn = okn and kk.kind == "param" and kk.d.get("name") == "key"
+                okn = okn and kk.kind == "param" and (kk.d.get("ty") or "").lstrip("&") == "std::option::Option<std::string::String>"
             if okn:
                 ctx.ok("C01.e", D, "name-encoding", "the member name is JSON-encoded by serde (Value::String(name).to_string()) from the unmodified key")
             else:
@@ -366,7 +357,7 @@ def clause_e(ctx, fx, config="default"):
             while guard < 6:
                 guard += 1
                 p = peel(a)
-                if p.kind == "call" and p.d["term"].get("name") == "to_string" and p.kids and peel(p.kids[0]).kind == "param" and peel(p.kids[0]).d.get("name") == "value":
+                if p.kind == "call" and p.d["term"].get("name") == "to_string" and p.kids and peel(p.kids[0]).kind == "param" and (peel(p.kids[0]).d.get("ty") or "").lstrip("&") in ("V", "serde_json::Value", "T"):
                     okv = True
                     break
                 if p.kind == "call" and p.d["term"].get("resolved_local") and p.d["term"].get("resolved") in fx.fns and p.kids:
